@@ -141,7 +141,8 @@ def check_case(case: dict) -> Outcome:
                 isinstance(value, list) and any(isinstance(x, float) and x != int(x) for x in value)):
             if blame in rm.TSPART:
                 blame, part = "tspart", "non-integer-number-truncated"
-        out.fail(f"C03:{blame}:{vkind(value)}:{part}",
+        vk = "" if part == "non-integer-number-truncated" else vkind(value) + ":"
+        out.fail(f"C03:{blame}:{vk}{part}",
                  f"{field}|{'|'.join(chain)}: {value!r} -> {got!r}, expected {want!r}")
     return out
 
